@@ -60,6 +60,10 @@ ASSUMPTIONS = [
     "waits on a lock, so the waiters run into the busy timeout; to keep this cheap the shim gives "
     "sqlite3.connect timeout=0.6 s instead of the default 5 s in those cases (time dilation only; "
     "the inconclusive threshold scales to 0.8 x that timeout)",
+    "'small_cache' cases run the connections with PRAGMA cache_size=10 (set by the shim, as a SQLite "
+    "build with a small default cache would): a writer inserting a 60 kB entry then spills and holds "
+    "the EXCLUSIVE lock from its INSERT to its COMMIT, which is otherwise only reachable with "
+    "entries above the default 2 MB cache",
     "unlinking the database file while any connection of a concurrent call - or the caller's own "
     "not yet closed connection - is open on it counts as 'deleting the database a call is using'",
     "a corrupt (non-sqlite) file is outside the statement's list of initial states; it is only "
@@ -81,8 +85,11 @@ TEXTS = [
     "package P\n  model C\n    Real z[3];\n  equation\n    z = {1, 2, 3};\n  end C;\nend P;\n",
     "model D\n  parameter Integer n = 2;\n  Real w;\nequation\n  w = if n > 1 then 1.0 else 2.0;\nend D;\n",
 ]
+# a model whose pickled tree (about 60 kB) does not fit a 10-page cache: see `small_cache`
+TEXTS.append("model Big\n" + "".join("  Real x%d(start=%d);\n" % (i, i) for i in range(120)) + "equation\n"
+             + "".join("  der(x%d) = -x%d;\n" % (i, i) for i in range(120)) + "end Big;\n")
+BIG = 4
 STATES = ["absent", "existing", "warm", "wrong_layout", "corrupt"]
-DB_NAME = None  # filled from pymoca.parser.DEFAULT_MODEL_CACHE_DB
 
 _expected = {}
 
@@ -167,6 +174,7 @@ class Sched:
         self.n = n
         self.schedule = list(schedule)
         self.stall = stall                 # this thread is never released while another is blocked
+        self.small_cache = False
         self.k = 0
         self.lastlabel = [None] * n        # last operation each thread was released to perform
         self.cv = threading.Condition()
@@ -243,8 +251,10 @@ class Sched:
             cand = [i for i in parked if i != self.stall]
         if not cand:
             return None
-        if self.solo0 and not self.recovered and 0 in cand:
-            return 0
+        if self.solo0 and not self.recovered and self.state[0] != "done":
+            # corrupt file: nobody else starts before thread 0 has replaced it (even when a slow
+            # step of thread 0 was taken for a lock wait)
+            return 0 if 0 in parked else None
         while self.k < len(self.schedule):
             e = self.schedule[self.k]
             if isinstance(e, int):
@@ -402,6 +412,11 @@ def make_shims(sched, db_path):
         if sched.stall is not None:
             kw["timeout"] = STALL_TIMEOUT_S
         real = sched.real(i, "CONNECT", _sqlite3.connect, path, *a, **kw)
+        if sched.small_cache:
+            try:
+                real.execute("PRAGMA cache_size=10")
+            except _sqlite3.DatabaseError:
+                pass  # not a database (corrupt state): the code under test will find out itself
         c = _Conn(sched, i, real, str(path))
         sched.conns[i].add(c)
         if sched.removals and sched.removals[-1][0] == i:
@@ -464,6 +479,7 @@ def run_d1(ctx, case):
     if stall is not None and not (isinstance(stall, int) and 0 <= stall < n):
         raise env.HarnessError("bad stall in %r" % (case,))
     sched = Sched(n, case["schedule"], solo0=(state == "corrupt"), stall=stall)
+    sched.small_cache = bool(case.get("small_cache"))
     sq, osx = make_shims(sched, db)
     outcomes = [None] * n
 
@@ -565,7 +581,13 @@ def finish_case(ctx, case, info):
 def d1_case(ctx, case):
     if ctx.over_budget():
         return
-    finish_case(ctx, case, run_d1(ctx, case))
+    try:
+        info = run_d1(ctx, case)
+    except Violation as v:   # a call that never returned: the case was abandoned
+        ctx.evaluations += 1
+        ctx.fail(v, case)
+        return
+    finish_case(ctx, case, info)
 
 
 @st.composite
@@ -577,14 +599,20 @@ def d1_strategy(draw):
         texts = [draw(st.integers(0, 2))] * n
     else:
         texts = draw(st.permutations([0, 1, 2]))[:n]
+    stall = draw(st.sampled_from([None, None, None, 0, 1]))
+    small = stall is not None and draw(st.booleans())
+    texts = list(texts)
+    if small:
+        texts[stall] = BIG
     return {
         "mode": "d1",
         "state": state,
         "n": n,
-        "texts": list(texts),
+        "texts": texts,
         "precached": draw(st.booleans()),
         "update_hit": draw(st.booleans()),
-        "stall": draw(st.sampled_from([None, None, None, 0, 1])),
+        "stall": stall,
+        "small_cache": small,
         "schedule": draw(st.lists(st.integers(0, 2), max_size=80)),
     }
 
@@ -595,7 +623,7 @@ def fixed_d1_cases(shard):
     state = STATES[shard % len(STATES)]
     same = (shard // len(STATES)) % 2 == 0
     out = []
-    for n, head in ((2, 0), (2, 3 + shard % 7), (3, 5 + shard % 11)):
+    for n, head in ((2, (0, 3, 7)[shard % 3]), (3, 5 + shard % 11)):
         texts = [shard % 3] * n if same else [(shard + j) % 3 for j in range(n)]
         sched = [0] * head + [j % n for j in range(1, 60)]
         out.append({"mode": "d1", "state": state, "n": n, "texts": texts, "precached": shard % 2 == 0,
@@ -608,6 +636,14 @@ def fixed_d1_cases(shard):
                     "n": 3, "texts": [0, 1, 2], "precached": False, "update_hit": False, "stall": 1,
                     "schedule": [[2, "PRAGMA integrity_check", None], [1, "COMMIT", "SELECT models"],
                                  [0, "<done>", None], [2, "<done>", None]]})
+    if shard % 4 == 3:
+        # a writer (thread 0) whose INSERT spilled the page cache holds the EXCLUSIVE lock until its
+        # COMMIT and is slow to get there; a first-use integrity check (thread 1) waits on it in vain
+        out.append({"mode": "d1", "state": ("existing", "absent", "wrong_layout", "existing")[(shard // 4) % 4],
+                    "n": 2, "texts": [BIG, shard % 3], "precached": False, "update_hit": False, "stall": 0,
+                    "small_cache": True,
+                    "schedule": [[1, "PRAGMA integrity_check", None], [0, "COMMIT", "INSERT OR REPLACE models"],
+                                 [1, "<done>", None]]})
     return out
 
 
@@ -814,9 +850,9 @@ def d2_case(ctx, case):
 
 
 @st.composite
-def d2_strategy(draw, ks=(2, 4, 8, 16), states=("absent", "existing", "wrong_layout")):
+def d2_strategy(draw, ks=(2, 4, 8, 16), states=("absent", "existing", "wrong_layout"), max_texts=3):
     k = draw(st.sampled_from(list(ks)))
-    texts = [draw(st.lists(st.integers(0, 2), min_size=1, max_size=3)) for _ in range(k)]
+    texts = [draw(st.lists(st.integers(0, 2), min_size=1, max_size=max_texts)) for _ in range(k)]
     return {"mode": "d2", "k": k, "state": draw(st.sampled_from(list(states))),
             "texts": texts, "precached": draw(st.booleans()), "update_hit": draw(st.booleans())}
 
@@ -847,9 +883,9 @@ def shard(ctx):
     # with k and the initial state fixed per shard so that every k and state occurs.
     if ctx.tier == "quick":
         if ctx.shard < 5:
-            k = (2, 4, 8, 16, 8)[ctx.shard]
+            k = (2, 4, 8, 16, 4)[ctx.shard]
             state = ("absent", "existing", "wrong_layout", "absent", "wrong_layout")[ctx.shard]
-            hyp_loop(ctx, d2_strategy(ks=(k,), states=(state,)), d2_case, 1, skip_first=True)
+            hyp_loop(ctx, d2_strategy(ks=(k,), states=(state,), max_texts=2), d2_case, 1, skip_first=True)
     else:
         hyp_loop(ctx, d2_strategy(), d2_case, ctx.share(0, 200), skip_first=True)
     for case in fixed_d1_cases(ctx.shard):
